@@ -62,6 +62,8 @@ int base_has(int n, int which, int i, int j)
     /* kinds 9.. are only used by generated patterns (gen=1), not by the BASE(n) lists */
     case 9: { int h = 2 * n / 3; if (i < h && j < h) return d || i == 0 || j == 0; if (i >= h && j >= h) return d || i == j + 1 || j == i + 1; return 0; }   /* arrow-first block (+) tridiagonal block */
     case 10: { int h = n / 2; if ((i < h) != (j < h)) return 0; int a = i < h ? i : i - h, b = j < h ? j : j - h; return d || a == 0 || b == 0; }             /* two arrow-first blocks */
+    case 11: return d || i == j + 2 || j == i + 2;                                     /* two interleaved tridiagonal chains: the natural order is not a postorder of the column etree */
+    case 12: return d || i == j + 2 || j == i + 2 || j == n - 1;                       /* the same, joined by a dense last column */
     }
     return d;
 }
